@@ -16,7 +16,7 @@ import Dbus.Proofs.Bus.Limits
 namespace Dbus.Proofs.Bus
 open Dbus Dbus.Spec Dbus.Model Dbus.Model.Bus
 
-def neutral (x : Conn) : Conn := if x.monitor then { x with monitor := false, monitorRules := [] } else x
+def neutral (x : Conn) : Conn := if x.monitor then { x with monitor := false, rules := [] } else x
 
 def shade (b : Bus) : Bus := { b with conns := b.conns.map neutral }
 
@@ -27,7 +27,9 @@ theorem neutral_id (x : Conn) : (neutral x).id = x.id := by unfold neutral; spli
 theorem neutral_name (x : Conn) : (neutral x).name = x.name := by unfold neutral; split <;> rfl
 theorem neutral_policy (x : Conn) : (neutral x).policy = x.policy := by unfold neutral; split <;> rfl
 theorem neutral_canFd (x : Conn) : (neutral x).canFd = x.canFd := by unfold neutral; split <;> rfl
-theorem neutral_rules (x : Conn) : (neutral x).rules = x.rules := by unfold neutral; split <;> rfl
+theorem neutral_monitorRules (x : Conn) : (neutral x).monitorRules = x.monitorRules := by unfold neutral; split <;> rfl
+theorem neutral_of_not_monitor {x : Conn} (h : x.monitor = false) : neutral x = x := by unfold neutral; simp [h]
+theorem neutral_rules_of_monitor {x : Conn} (h : x.monitor = true) : (neutral x).rules = [] := by unfold neutral; simp [h]
 theorem neutral_monitor (x : Conn) : (neutral x).monitor = false := by
   unfold neutral; split
   · rfl
@@ -107,28 +109,27 @@ theorem checkPolicy_shade (b : Bus) (s a p : Option ConnId) (m : Msg) :
   simp only [requestedReply_shade, policyVerdict_shade]
   rfl
 
-/-- the match-rule recipients are the same: a monitor has no ordinary rules and is excluded anyway -/
-theorem recipients_filter_shade (ctx : MatchCtx) (a : Option ConnId) : ∀ (l : List Conn), (∀ x ∈ l, x.monitor = true → x.rules = []) →
+/-- the match-rule recipients are the same: a monitor is excluded, and so is the rule-less connection it is shaded into -/
+theorem recipients_filter_shade (ctx : MatchCtx) (a : Option ConnId) : ∀ (l : List Conn),
     ((l.map neutral).filter fun c => !c.monitor && some c.id != a && c.rules.any (fun r => ruleMatches r ctx)).map (·.id) =
     (l.filter fun c => !c.monitor && some c.id != a && c.rules.any (fun r => ruleMatches r ctx)).map (·.id)
-  | [], _ => rfl
-  | x :: xs, h => by
-    have ih := recipients_filter_shade ctx a xs (fun y hy => h y (List.mem_cons_of_mem _ hy))
+  | [] => rfl
+  | x :: xs => by
+    have ih := recipients_filter_shade ctx a xs
     simp only [List.map_cons, List.filter_cons]
     by_cases hm : x.monitor = true
-    · have hr : x.rules = [] := h x List.mem_cons_self hm
-      simp only [neutral_monitor, neutral_rules, neutral_id, hr, hm, List.any_nil, Bool.and_false, Bool.not_true, Bool.false_and,
+    · simp only [neutral_monitor, neutral_rules_of_monitor hm, neutral_id, hm, List.any_nil, Bool.and_false, Bool.not_true, Bool.false_and,
         Bool.false_eq_true, if_false]
       exact ih
-    · have hn : neutral x = x := by unfold neutral; simp [hm]
+    · have hn : neutral x = x := neutral_of_not_monitor (by simpa using hm)
       rw [hn]
       by_cases hp : (!x.monitor && some x.id != a && x.rules.any fun r => ruleMatches r ctx) = true
       · simp only [hp, if_true, List.map_cons]; rw [ih]
       · simp only [hp, if_false]; exact ih
 
-theorem recipients_shade (b : Bus) (h : MonClean b) (s a : Option ConnId) (m : Msg) :
+theorem recipients_shade (b : Bus) (s a : Option ConnId) (m : Msg) :
     recipients (shade b) s a m = recipients b s a m :=
-  recipients_filter_shade (matchCtx b s a m) a b.conns h
+  recipients_filter_shade (matchCtx b s a m) a b.conns
 
 theorem stampDriver_shade (b : Bus) (to : ConnId) (m : Msg) : stampDriver (shade b) to m = stampDriver b to m := by
   unfold stampDriver
@@ -191,10 +192,10 @@ theorem shadow_fold_sendOne (s a : Option ConnId) (m : Msg) : ∀ (rs : List Con
 theorem recipients_pending (b : Bus) (p : List Pending) (s a : Option ConnId) (m : Msg) :
     recipients { b with pending := p } s a m = recipients b s a m := rfl
 
-theorem shadow_sendMatches {t t' : Tx} (h : Shadow t t') (hc : MonClean t.bus) (s a : Option ConnId) (m : Msg) :
+theorem shadow_sendMatches {t t' : Tx} (h : Shadow t t') (s a : Option ConnId) (m : Msg) :
     Shadow (sendMatches t s a m) (sendMatches t' s a m) := by
   unfold sendMatches
-  rw [h.1, recipients_shade _ hc]
+  rw [h.1, recipients_shade]
   exact shadow_fold_sendOne s a m _ _ _ h
 
 theorem sendAddressed_conns (t : Tx) (s : Option ConnId) (a : ConnId) (m : Msg) : (sendAddressed t s a m).1.bus.conns = t.bus.conns := by
@@ -206,39 +207,36 @@ theorem sendAddressed_conns (t : Tx) (s : Option ConnId) (a : ConnId) (m : Msg) 
 
 /-- **Match-rule and addressed delivery ignore monitors**: the same ordinary deliveries, the same error,
     the same changes to the pending replies, in `b` and in `b` with its monitors shaded. -/
-theorem shadow_dispatchMatches {t t' : Tx} (h : Shadow t t') (hc : MonClean t.bus) (s a : Option ConnId) (m : Msg) :
+theorem shadow_dispatchMatches {t t' : Tx} (h : Shadow t t') (s a : Option ConnId) (m : Msg) :
     Shadow (dispatchMatches t s a m).1 (dispatchMatches t' s a m).1 ∧ (dispatchMatches t' s a m).2 = (dispatchMatches t s a m).2 := by
   unfold dispatchMatches
   cases a with
-  | none => exact ⟨shadow_sendMatches h hc s none m, rfl⟩
+  | none => exact ⟨shadow_sendMatches h s none m, rfl⟩
   | some a =>
     dsimp only
     have h1 := shadow_sendAddressed h s a m
-    have hcc := sendAddressed_conns t s a m
     rcases hr : sendAddressed t s a m with ⟨t1, e⟩
     rcases hr' : sendAddressed t' s a m with ⟨t1', e'⟩
     rw [hr, hr'] at h1
-    rw [hr] at hcc
     obtain ⟨hs, he⟩ := h1
-    dsimp only at hs he hcc
+    dsimp only at hs he
     subst he
     cases e' with
     | some e => exact ⟨hs, rfl⟩
     | none =>
-      refine ⟨shadow_sendMatches hs ?_ s (some a) m, rfl⟩
-      intro x hx; exact hc x (by rw [← hcc]; exact hx)
+      exact ⟨shadow_sendMatches hs s (some a) m, rfl⟩
 
 theorem primary?_shade (b : Bus) (n : Bytes) : (shade b).primary? n = b.primary? n := rfl
 
 /-- **Routing a message ignores monitors.** -/
-theorem shadow_route {t t' : Tx} (h : Shadow t t') (hc : MonClean t.bus) (c : ConnId) (m : Msg) :
+theorem shadow_route {t t' : Tx} (h : Shadow t t') (c : ConnId) (m : Msg) :
     Shadow (route t c m).1 (route t' c m).1 ∧ (route t' c m).2 = (route t c m).2 := by
   unfold route
   rw [h.1, ]
   cases m.dest with
   | none =>
     dsimp only
-    exact shadow_dispatchMatches (Shadow.capture h _ _ _ _ _ _) (by rw [(capture_frame _ _ _ _).1]; exact hc) _ _ _
+    exact shadow_dispatchMatches (Shadow.capture h _ _ _ _ _ _) _ _ _
   | some d =>
     dsimp only
     rw [primary?_shade]
@@ -246,7 +244,7 @@ theorem shadow_route {t t' : Tx} (h : Shadow t t') (hc : MonClean t.bus) (c : Co
     | none => exact ⟨Shadow.capture h _ _ _ _ _ _, rfl⟩
     | some a =>
       dsimp only
-      exact shadow_dispatchMatches (Shadow.capture h _ _ _ _ _ _) (by rw [(capture_frame _ _ _ _).1]; exact hc) _ _ _
+      exact shadow_dispatchMatches (Shadow.capture h _ _ _ _ _ _) _ _ _
 
 theorem shadow_sendStamped {t t' : Tx} (h : Shadow t t') (to : ConnId) (m : Msg) :
     Shadow (sendStamped t to m) (sendStamped t' to m) := by
@@ -313,13 +311,29 @@ theorem updConn_shade (b : Bus) (c : ConnId) (g : Conn → Conn) (hg : Blind g) 
   · exact (hg x).symm
   · rfl
 
-theorem blind_rules (g : List MatchRule → List MatchRule) : Blind (fun x => { x with rules := g x.rules }) := by
-  intro x
-  unfold neutral
-  by_cases h : x.monitor = true <;> simp [h]
+/-- a per-connection update applied to a connection that is no monitor commutes with shading whatever it does to the rules -/
+theorem updConn_shade_at (b : Bus) (c : ConnId) (g : Conn → Conn) (hg : ∀ x ∈ b.conns, x.id = c → neutral (g x) = g (neutral x)) :
+    (shade b).updConn c g = shade (b.updConn c g) := by
+  unfold Bus.updConn shade
+  simp only [List.map_map]
+  congr 1
+  apply List.map_congr_left
+  intro x hx
+  simp only [Function.comp, neutral_id]
+  split
+  · rename_i h; exact (hg x hx (by simpa using h)).symm
+  · rfl
 
-theorem updRules_shade (b : Bus) (c : ConnId) (g : List MatchRule → List MatchRule) :
-    (shade b).updRules c g = shade (b.updRules c g) := updConn_shade b c _ (blind_rules g)
+/-- the actor of a dispatch: no monitor (a monitor that sends is dropped before anything else happens) -/
+def Actor (b : Bus) (c : ConnId) : Prop := ∀ x ∈ b.conns, x.id = c → x.monitor = false
+
+theorem updRules_shade (b : Bus) (c : ConnId) (g : List MatchRule → List MatchRule) (ha : Actor b c) :
+    (shade b).updRules c g = shade (b.updRules c g) := by
+  apply updConn_shade_at
+  intro x hx hid
+  have hm := ha x hx hid
+  rw [neutral_of_not_monitor hm]
+  exact neutral_of_not_monitor (by simpa using hm)
 
 theorem setOwners_shade (b : Bus) (n : Bytes) (os : List Owner) : (shade b).setOwners n os = shade (b.setOwners n os) := by
   unfold Bus.setOwners
@@ -388,12 +402,12 @@ theorem nOwned_shade (b : Bus) (c : ConnId) : nOwned (shade b) c = nOwned b c :=
   | none => rfl
   | some x => simp [neutral_owned]
 
-theorem shadow_sigOwnerChanged {t t' : Tx} (h : Shadow t t') (hc : MonClean t.bus) (n o w : Bytes) :
+theorem shadow_sigOwnerChanged {t t' : Tx} (h : Shadow t t') (n o w : Bytes) :
     Shadow (sigOwnerChanged t n o w) (sigOwnerChanged t' n o w) := by
   unfold sigOwnerChanged
-  exact (shadow_dispatchMatches (Shadow.capture h _ _ _ _ _ _) (by rw [(capture_frame _ _ _ _).1]; exact hc) none none _).1
+  exact (shadow_dispatchMatches (Shadow.capture h _ _ _ _ _ _) none none _).1
 
-theorem shadow_emitSig {t t' : Tx} (h : Shadow t t') (hc : MonClean t.bus) (n : Bytes) (s : Sig) :
+theorem shadow_emitSig {t t' : Tx} (h : Shadow t t') (n : Bytes) (s : Sig) :
     Shadow (emitSig n t s) (emitSig n t' s) := by
   cases s with
   | lost c => exact shadow_sendFromDriver h c _
@@ -401,26 +415,26 @@ theorem shadow_emitSig {t t' : Tx} (h : Shadow t t') (hc : MonClean t.bus) (n : 
   | changed o w =>
     show Shadow (sigOwnerChanged t n (connName t.bus o) (connName t.bus w)) (sigOwnerChanged t' n (connName t'.bus o) (connName t'.bus w))
     rw [h.1, connName_shade, connName_shade]
-    exact shadow_sigOwnerChanged h hc n _ _
+    exact shadow_sigOwnerChanged h n _ _
 
-theorem shadow_emitSigs (n : Bytes) : ∀ (sigs : List Sig) {t t' : Tx}, Shadow t t' → MonClean t.bus →
+theorem shadow_emitSigs (n : Bytes) : ∀ (sigs : List Sig) {t t' : Tx}, Shadow t t' →
     Shadow (sigs.foldl (emitSig n) t) (sigs.foldl (emitSig n) t')
-  | [], _, _, h, _ => h
-  | s :: sigs, t, t', h, hc => by
+  | [], _, _, h => h
+  | s :: sigs, t, t', h => by
     simp only [List.foldl_cons]
-    exact shadow_emitSigs n sigs (shadow_emitSig h hc n s) (by rw [emitSig_bus]; exact hc)
+    exact shadow_emitSigs n sigs (shadow_emitSig h n s)
 
-theorem shadow_applyQueue {t t' : Tx} (h : Shadow t t') (hc : MonClean t.bus) (n : Bytes) (os' : List Owner) (sigs : List Sig) :
+theorem shadow_applyQueue {t t' : Tx} (h : Shadow t t') (n : Bytes) (os' : List Owner) (sigs : List Sig) :
     Shadow (applyQueue t n os' sigs) (applyQueue t' n os' sigs) := by
   unfold applyQueue
-  have hs := shadow_emitSigs n sigs h hc
+  have hs := shadow_emitSigs n sigs h
   refine ⟨?_, hs.2⟩
   show syncOwned ((sigs.foldl (emitSig n) t').bus.setOwners n os') n (ownersOf t'.bus n) os' =
     shade (syncOwned ((sigs.foldl (emitSig n) t).bus.setOwners n os') n (ownersOf t.bus n) os')
   rw [hs.1, h.1, setOwners_shade, syncOwned_shade]
   rfl
 
-theorem shadow_acquire {t t' : Tx} (h : Shadow t t') (hc : MonClean t.bus) (c : ConnId) (n : Bytes) (flags : Nat) :
+theorem shadow_acquire {t t' : Tx} (h : Shadow t t') (c : ConnId) (n : Bytes) (flags : Nat) :
     Shadow (acquire t c n flags).1 (acquire t' c n flags).1 ∧ (acquire t' c n flags).2 = (acquire t c n flags).2 := by
   unfold acquire
   rw [h.1, connPolicy_shade, nOwned_shade]
@@ -441,9 +455,9 @@ theorem shadow_acquire {t t' : Tx} (h : Shadow t t') (hc : MonClean t.bus) (c : 
     simp only [g5, g5', if_true]; first | exact ⟨h, rfl⟩ | exact ⟨h, trivial⟩
   have g5' : ¬ nOwned t.bus c ≥ (shade t.bus).limits.maxNames := g5
   simp only [g5, g5', if_false]
-  first | exact ⟨shadow_applyQueue h hc n _ _, rfl⟩ | exact ⟨shadow_applyQueue h hc n _ _, trivial⟩
+  first | exact ⟨shadow_applyQueue h n _ _, rfl⟩ | exact ⟨shadow_applyQueue h n _ _, trivial⟩
 
-theorem shadow_release {t t' : Tx} (h : Shadow t t') (hc : MonClean t.bus) (c : ConnId) (n : Bytes) :
+theorem shadow_release {t t' : Tx} (h : Shadow t t') (c : ConnId) (n : Bytes) :
     Shadow (release t c n).1 (release t' c n).1 ∧ (release t' c n).2 = (release t c n).2 := by
   unfold release
   rw [h.1]
@@ -456,17 +470,17 @@ theorem shadow_release {t t' : Tx} (h : Shadow t t') (hc : MonClean t.bus) (c : 
   by_cases g3 : (n == BUS_NAME) = true
   · simp only [g3, if_true]; first | exact ⟨h, rfl⟩ | exact ⟨h, trivial⟩
   simp only [g3, if_false]
-  first | exact ⟨shadow_applyQueue h hc n _ _, rfl⟩ | exact ⟨shadow_applyQueue h hc n _ _, trivial⟩
+  first | exact ⟨shadow_applyQueue h n _ _, rfl⟩ | exact ⟨shadow_applyQueue h n _ _, trivial⟩
 
-theorem shadow_removeOwner {t t' : Tx} (h : Shadow t t') (hc : MonClean t.bus) (n : Bytes) (c : ConnId) :
+theorem shadow_removeOwner {t t' : Tx} (h : Shadow t t') (n : Bytes) (c : ConnId) :
     Shadow (removeOwner t n c) (removeOwner t' n c) := by
   unfold removeOwner
   rw [h.1]
-  exact shadow_applyQueue h hc n _ _
+  exact shadow_applyQueue h n _ _
 
-theorem shadow_ensureService {t t' : Tx} (h : Shadow t t') (hc : MonClean t.bus) (n : Bytes) (c : ConnId) (flags : Nat) :
+theorem shadow_ensureService {t t' : Tx} (h : Shadow t t') (n : Bytes) (c : ConnId) (flags : Nat) :
     Shadow (ensureService t n c flags) (ensureService t' n c flags) :=
-  shadow_applyQueue h hc n _ _
+  shadow_applyQueue h n _ _
 
 theorem shadow_reply {t t' : Tx} (h : Shadow t t') (c : ConnId) (call : Msg) (tys : List Ty) (body : List Val) :
     Shadow (reply t c call tys body) (reply t' c call tys body) := shadow_sendFromDriver h c _
@@ -486,7 +500,7 @@ theorem shadow_finish {t t' : Tx} (h : Shadow t t') (e : Option Err) (c : ConnId
     not a monitor, addressed to a peer or to nobody (a broadcast) — everything but calls to the bus
     driver itself — is dispatched with the same ordinary deliveries, the same error reply and the same
     state changes whether the monitors are monitors or idle ordinary connections. -/
-theorem dispatch_peer_traffic_shade (tbl : List IfaceRow) (b : Bus) (hc : MonClean b) (c : ConnId) (x : Conn) (m0 : Msg)
+theorem dispatch_peer_traffic_shade (tbl : List IfaceRow) (b : Bus) (c : ConnId) (x : Conn) (m0 : Msg)
     (hx : b.conn? c = some x) (hmon : x.monitor = false) (hname : x.name.isSome = true)
     (hdest : ((strip m0).setSender (senderNameOf b c)).dest ≠ some BUS_NAME) :
     (dispatch tbl (shade b) c m0).out = (dispatch tbl b c m0).out ∧
@@ -509,7 +523,7 @@ theorem dispatch_peer_traffic_shade (tbl : List IfaceRow) (b : Bus) (hc : MonCle
     | none => rw [hxn] at hname; cases hname
     | some _ => rfl
   simp only [hd, Bool.false_eq_true, if_false, hnn]
-  have hr := shadow_route (t := { bus := b }) (t' := { bus := shade b }) ⟨rfl, rfl⟩ hc c ((strip m0).setSender (senderNameOf b c))
+  have hr := shadow_route (t := { bus := b }) (t' := { bus := shade b }) ⟨rfl, rfl⟩ c ((strip m0).setSender (senderNameOf b c))
   rcases h3 : route { bus := b } c ((strip m0).setSender (senderNameOf b c)) with ⟨t1, e1⟩
   rcases h4 : route { bus := shade b } c ((strip m0).setSender (senderNameOf b c)) with ⟨t2, e2⟩
   rw [h3, h4] at hr
